@@ -50,11 +50,14 @@ def _leaf_build(idx, k, n, i=None):
             if i is None:
                 raise Unevaluable('loop variable outside the loop')
             return i
+        if x0[0] == 'call' and x0[1].endswith('div_ceil'):
+            a, b = eval_expr(x0[2][0], leaf), eval_expr(x0[2][1], leaf)
+            return -(-a // b)
         raise Unevaluable()
     return leaf
 
 
-def check_guards(facts, chk):
+def check_guards(facts, chk, rule='C01.guard'):
     build = facts.fn(SK + 'build')
     eb = ExprBuilder(build, through_vars=False)
     # blocks that return None
@@ -69,8 +72,8 @@ def check_guards(facts, chk):
                     guards.append((b.idx, s, cont))
     reads = [(b.idx, b.term) for b in build.blocks if b.idx in build.live_blocks() and b.term.k == 'assert' and b.term.msg == 'BoundsCheck'
              and 'seq' in show(eb.operand(b.term.msg_ops[0]))]
-    chk.floor('C01.guard', 'end-of-record guards in build', len(guards), 2)
-    chk.floor('C01.guard', 'guarded sequence reads in build', len(reads), 2)
+    chk.floor(rule, 'end-of-record guards in build', len(guards), 2)
+    chk.floor(rule, 'guarded sequence reads in build', len(reads), 2)
     # loop bound i < k
     heads = [b.idx for b in build.blocks if b.idx in build.live_blocks() and b.term.k == 'switch' and
              eb.operand(b.term.discr)[0] == 'bin' and eb.operand(b.term.discr)[1] == 'Lt' and build.in_cycle(b.idx) and
@@ -90,7 +93,7 @@ def check_guards(facts, chk):
     order = sorted(guards, key=lambda g: g[0])
     names = ['entry', 'restart'] + ['extra%d' % i for i in range(len(order))]
     for gi, (gb, nb, cont) in enumerate(order):
-        key = 'C01.guard:SplitKmer::build:%s' % names[gi]
+        key = rule + ':SplitKmer::build:%s' % names[gi]
 
         def go(gb=gb, cont=cont):
             if len(cont) != 1:
@@ -110,23 +113,51 @@ def check_guards(facts, chk):
                 if r and not g:
                     too_strict.append((idx, k, n))
             return show_formula(cform, show), too_strict, too_weak
-        r = chk.guard('C01.guard', key, go)
+        r = chk.guard(rule, key, go)
         if r is None:
             continue
         form, strict, weak = r
         sp = build.blocks[gb].term.span
         if weak:
-            chk.violation('C01.guard', key, where=sp, evals=len(GRID),
+            chk.violation(rule, key, where=sp, evals=len(GRID),
                           detail='guard lets control continue (%s) although a read seq[i + *idx], i < k, is out of bounds, e.g. (idx,k,seq_len)=%s' % (form, weak[0]))
         elif strict:
-            chk.violation('C01.guard', key, where=sp, evals=len(GRID),
+            chk.violation(rule, key, where=sp, evals=len(GRID),
                           detail='guard is tighter than the reads it protects: it returns None although every read seq[i + *idx], i < k, is in '
                                  'bounds, e.g. (idx,k,seq_len)=%s - a window ending exactly at the record end is dropped. continue-condition: %s'
                                  % (strict[0], form),
                           construct=dict(function=SK + 'build', guard=sp, example=strict[0], reads=[show(x[1]) for x in ridx]))
         else:
-            chk.ok('C01.guard', key, sp, 'continue <=> all %d read sites in bounds (%s)' % (len(ridx), form), evals=len(GRID),
+            chk.ok(rule, key, sp, 'continue <=> all %d read sites in bounds (%s)' % (len(ridx), form), evals=len(GRID),
                    sample=dict(guard=form, reads=[show(x[1]) for x in ridx]))
+    # unsigned arithmetic on the way to the guards must not underflow for any record length (a record shorter than k
+    # must be skipped, not panic in debug builds / wrap in release builds)
+    subs = [(b.idx, b.term) for b in build.blocks if b.idx in build.live_blocks() and b.term.k == 'assert' and b.term.msg.startswith('Overflow:Sub')]
+    for sb, t in subs:
+        le, re_ = eb.operand(t.msg_ops[0]), eb.operand(t.msg_ops[1])
+        if any(x[0] == 'var' and x[2] == 'i' for x in list(subexprs(le)) + list(subexprs(re_))):
+            continue
+        # only subtractions evaluated before a window is known to fit: those not dominated by a guard's continue edge
+        protected = False
+        for gb, nb, cont in guards:
+            if len(cont) == 1 and build.dominates(cont[0][0], sb):
+                protected = True
+        bad = []
+        try:
+            for (idx, k, n) in GRID:
+                if protected and not (idx + k <= n):
+                    continue
+                if eval_expr(le, _leaf_build(idx, k, n)) - eval_expr(re_, _leaf_build(idx, k, n)) < 0:
+                    bad.append((idx, k, n))
+        except Unevaluable:
+            continue
+        key = rule + ':SplitKmer::build:underflow:%s' % show(('bin', 'Sub', le, re_)).replace(' ', '')
+        if bad:
+            chk.violation(rule, key, where=t.span, evals=len(GRID),
+                          detail='unsigned subtraction %s - %s underflows for (idx,k,seq_len)=%s: a record shorter than k panics (debug) or wraps (release) instead of being skipped'
+                                 % (show(le), show(re_), bad[0]))
+        else:
+            chk.ok(rule, key, t.span, '%s - %s cannot underflow on the grid' % (show(le), show(re_)), evals=len(GRID), nontrivial=False)
     # roll_fwd
     roll = facts.fn(SK + 'roll_fwd')
     ebr = ExprBuilder(roll, through_vars=False)
@@ -173,15 +204,15 @@ def check_guards(facts, chk):
                 if r and not g:
                     strict.append((idx, n))
         return roll.blocks[gb].term.span, show_formula(cont[0][1], show), strict, weak
-    r = chk.guard('C01.guard', 'C01.guard:SplitKmer::roll_fwd:end', go_roll)
+    r = chk.guard(rule, rule + ':SplitKmer::roll_fwd:end', go_roll)
     if r is not None:
         sp, form, strict, weak = r
-        key = 'C01.guard:SplitKmer::roll_fwd:end'
+        key = rule + ':SplitKmer::roll_fwd:end'
         if weak or strict:
-            chk.violation('C01.guard', key, where=sp, evals=100,
+            chk.violation(rule, key, where=sp, evals=100,
                           detail='end-of-sequence guard in roll_fwd is not tight: too weak at %s, too strict at %s (continue: %s)' % (weak[:1], strict[:1], form))
         else:
-            chk.ok('C01.guard', key, sp, 'continue <=> self.seq[self.index] in bounds (%s)' % form, evals=100)
+            chk.ok(rule, key, sp, 'continue <=> self.seq[self.index] in bounds (%s)' % form, evals=100)
 
 
 def check_args(facts, chk):
